@@ -190,6 +190,9 @@ func (u *Unit) loopsOf(fn *ssa.Function) map[*ssa.BasicBlock]*loopInfo {
 
 // ---------------- block execution ----------------
 
+// unrollBound-1 is the number of iterations explored exactly in loops without invariant.
+const unrollBound = 3
+
 func (u *Unit) enterBlock(st *State, fr *Frame, b, pred *ssa.BasicBlock) {
 	if u.expired() || st.Dead {
 		return
@@ -197,6 +200,16 @@ func (u *Unit) enterBlock(st *State, fr *Frame, b, pred *ssa.BasicBlock) {
 	st.Trace = append(st.Trace, fmt.Sprintf("%s#%d", fr.Fn.Name(), b.Index))
 	loops := u.loopsOf(fr.Fn)
 	if li, ok := loops[b]; ok {
+		if n, unrolling := fr.Unroll[b]; unrolling {
+			// exact bounded exploration of a loop that has no invariant (see below)
+			if n >= unrollBound {
+				u.pruned++
+				return
+			}
+			fr.Unroll[b] = n + 1
+			u.exec(st, fr, b, 0, pred)
+			return
+		}
 		if fr.LoopSeen[b] {
 			// back edge: prove the invariant and stop
 			u.loopInvariants(st, fr, li, "inv-step")
@@ -204,6 +217,21 @@ func (u *Unit) enterBlock(st *State, fr *Frame, b, pred *ssa.BasicBlock) {
 			return
 		}
 		u.loopInvariants(st, fr, li, "inv-entry")
+		if fr.Parent != nil && u.contractFor(fr.Fn) == nil && u.uncontracted[fr.Fn.Name()] == fr.Fn {
+			// A loop in a helper that has no contract, hence no invariant. Two explorations:
+			// first the paths that leave the loop within unrollBound iterations, executed
+			// exactly (an obligation refuted there is refuted by real behaviour); then the
+			// usual cut with the trivial invariant, which covers every iteration count but
+			// forgets what the loop did: failures there only say "needs a contract".
+			st2, fr2 := st.Clone(), fr.cloneFor()
+			if fr2.Unroll == nil {
+				fr2.Unroll = map[*ssa.BasicBlock]int{}
+			}
+			fr2.Unroll[b] = 1
+			u.abstracted(fmt.Sprintf("loop without invariant in %s (function without contract): explored exactly up to %d iterations for refutations, cut with the trivial invariant for proofs", fr.Fn.String(), unrollBound-1))
+			u.exec(st2, fr2, b, 0, pred)
+			st.weaken("loop " + li.label + " of " + fr.Fn.String() + ", which has no contract and hence no invariant")
+		}
 		u.havocLoop(st, fr, li)
 		fr.LoopSeen[b] = true
 		u.assumeLoopInvariants(st, fr, li)
